@@ -115,6 +115,8 @@ pub struct Box_ {
     pub per_task: Vec<TP>,
     /// strict periodic automata (C18) instead of sporadic(T,0)
     pub strict_periodic: bool,
+    /// per-system state cap (a search that hits it is counted as truncated and claims nothing)
+    pub cap: usize,
 }
 
 pub fn sporadic_grid(tmax: u64, jmax: u64) -> Vec<ArrSpec> {
@@ -125,6 +127,18 @@ pub fn sporadic_grid(tmax: u64, jmax: u64) -> Vec<ArrSpec> {
         }
     }
     v
+}
+
+/// arrival models with periods long enough for three tasks to be feasible together
+pub fn feasible_menu() -> Vec<ArrSpec> {
+    vec![
+        ArrSpec::Sporadic { t: 6, j: 0 },
+        ArrSpec::Sporadic { t: 8, j: 3 },
+        ArrSpec::Sporadic { t: 12, j: 0 },
+        ArrSpec::Sporadic { t: 12, j: 14 },
+        ArrSpec::Curve { dmin: vec![0, 10] },
+        ArrSpec::ExtCurve { dmin: vec![3, 9, 15] },
+    ]
 }
 
 pub fn curve_menu() -> Vec<ArrSpec> {
@@ -362,7 +376,7 @@ pub fn check_taskset(
             ..Default::default()
         };
         let mut m = Model::new(&spec, &b, tua, &opts);
-        let mut st = engine::explore(&m, 2_000_000);
+        let mut st = engine::explore(&m, bx.cap);
         acc.systems += 1;
         acc.states += st.states as u64;
         acc.transitions += st.transitions as u64;
@@ -478,7 +492,7 @@ pub fn check_taskset(
                     // concluding anything
                     opts.cap_lp = 4;
                     m = Model::new(&spec, &b, tua, &opts);
-                    st = engine::explore(&m, 2_000_000);
+                    st = engine::explore(&m, bx.cap);
                     wc = g.iter().map(|k| st.max_resp[*k] as u64).max().unwrap();
                 }
                 // Tightness is relative to an attainable blocking input: a lower-priority task
@@ -576,7 +590,7 @@ pub fn check_taskset(
             acc.sr_checked += 1;
         }
         if !ctx.quick() && ctx.pick(item * 8 + 5 + tua.unwrap_or(7) as u64, 2000) {
-            let st2 = engine::explore(&Model::new(&spec, &b, tua, &opts), 2_000_000);
+            let st2 = engine::explore(&Model::new(&spec, &b, tua, &opts), bx.cap);
             if st2.states != st.states || st2.transitions != st.transitions {
                 machinery_error("exploration is not deterministic");
             }
@@ -632,6 +646,21 @@ pub fn boxes_for(id: &str, quick: bool) -> Vec<Box_> {
         ntasks: n,
         per_task: per_task(ana, &arrs, cmax, dls),
         strict_periodic: strict,
+        cap: 2_000_000,
+    };
+    // systems that are not tiny (parameters in the tens, bursts of three), searched under a
+    // per-system state cap: a violation found below the cap is a violation; a search that hits
+    // the cap claims nothing and is counted as truncated
+    let _large = |name: &str, ana: Ana, n: usize, menu: &[(u64, u64, u64)], dls: &[u64], cap: usize| {
+        let mut pt = vec![];
+        for (t, j, c) in menu {
+            let dl_list: Vec<u64> = if ana.is_edf() { dls.iter().map(|k| if *k == 0 { *t } else { *k }).collect() } else { vec![0] };
+            for dl in dl_list {
+                let segs = if matches!(ana, Ana::FpLp | Ana::EdfLp) && *c > 1 { vec![c / 2, c - c / 2] } else { vec![*c] };
+                pt.push(TP { arr: ArrSpec::Sporadic { t: *t, j: *j }, c: *c, segs, nps: if matches!(ana, Ana::FpFl | Ana::EdfFl) { (*c + 1) / 2 } else { 1 }, dl });
+            }
+        }
+        Box_ { name: name.to_string(), ana, ntasks: n, per_task: pt, strict_periodic: false, cap }
     };
     let with_curves = |mut g: Vec<ArrSpec>| {
         g.extend(curve_menu());
@@ -679,6 +708,11 @@ pub fn boxes_for(id: &str, quick: bool) -> Vec<Box_> {
                             [3u64, 6, 10].iter().flat_map(|t| [0u64, 3].into_iter().map(move |j| ArrSpec::Sporadic { t: *t, j })).collect(),
                             2, &[3, 20], false));
                     }
+                    // four tasks: three potential blockers / three interfering tasks in every
+                    // deadline order (table look-ups and binary searches over the other tasks
+                    // degenerate to the right answer with two entries)
+                    v.push(mk("4 tasks T{4,5} C<=2 D{1,3,5}", ana, 4, vec![ArrSpec::Sporadic { t: 4, j: 0 }, ArrSpec::Sporadic { t: 5, j: 0 }],
+                        if matches!(ana, Ana::EdfLp | Ana::EdfFl) { 1 } else { 2 }, &[1, 3, 5], false));
                     v.push(mk("2 tasks T<=5 J<=2 C<=2 D{1,3,6}", ana, 2, sporadic_grid(5, 2), 2, &[1, 3, 6], false));
                     v.push(mk("2 tasks curves C<=2 D{2,5}", ana, 2, with_curves(sporadic_grid(3, 1)), 2, &[2, 5], false));
                 } else {
@@ -711,6 +745,13 @@ pub fn boxes_for(id: &str, quick: bool) -> Vec<Box_> {
             } else {
                 v.push(mk("2 tasks sum_of((T1,J1),(T2,0)) T1{4,6,10} J1{2,5,8} T2{5,7,10} + sporadic, C<=3", Ana::Fifo, 2, sums(&[4, 6, 10], &[2, 5, 8], &[5, 7, 10]), 3, &[], false));
                 v.push(mk("3 tasks sum_of((T1,J1),(T2,0)) T1{6} J1{2,5} T2{5,7} + sporadic, C<=2", Ana::Fifo, 3, sums(&[6], &[2, 5], &[5, 7]), 2, &[], false));
+            }
+            // four and five tasks (aggregates with more than three components)
+            if quick {
+                v.push(mk("4 tasks {(5,0),(6,5)} C<=2", Ana::Fifo, 4, vec![ArrSpec::Sporadic { t: 5, j: 0 }, ArrSpec::Sporadic { t: 6, j: 5 }], 2, &[], false));
+            } else {
+                v.push(mk("4 tasks {(5,0),(6,5),(4,0)} C<=2", Ana::Fifo, 4, vec![ArrSpec::Sporadic { t: 5, j: 0 }, ArrSpec::Sporadic { t: 6, j: 5 }, ArrSpec::Sporadic { t: 4, j: 0 }], 2, &[], false));
+                v.push(mk("5 tasks {(6,0),(7,6)} C=1", Ana::Fifo, 5, vec![ArrSpec::Sporadic { t: 6, j: 0 }, ArrSpec::Sporadic { t: 7, j: 6 }], 1, &[], false));
             }
             if quick {
                 v.push(mk("2 tasks T<=6 J<=3 C<=3", Ana::Fifo, 2, sporadic_grid(6, 3), 3, &[], false));
@@ -781,6 +822,7 @@ pub fn run(id: &str, ctx: &mut Ctx) -> (String, Value, Vec<String>) {
     if total.states == 0 {
         machinery_error("no states explored");
     }
+    let far = if id == "C18" { far_tightness(ctx) } else { json!(null) };
     let mut cov = total.json();
     let m = cov.as_object_mut().unwrap();
     m.insert("states".into(), json!(total.states));
@@ -791,6 +833,9 @@ pub fn run(id: &str, ctx: &mut Ctx) -> (String, Value, Vec<String>) {
     );
     m.insert("samples".into(), json!(total.samples));
     m.insert("boxes".into(), json!(box_desc));
+    if id == "C18" {
+        m.insert("far_windows".into(), far);
+    }
     m.insert("evaluations".into(), json!(total.systems));
     m.insert("distinct_nontrivial".into(), json!(total.nontrivial));
     m.insert("rule".into(), json!("every task set of each box x every priority level (FP) is one system; each system's scheduler model is explored to a time-unbounded fixpoint; non-trivial = the model's worst-case response time exceeds the task's own WCET (interference/blocking actually occurred)"));
@@ -804,6 +849,72 @@ pub fn run(id: &str, ctx: &mut Ctx) -> (String, Value, Vec<String>) {
     ("model_checking".to_string(), cov, assumptions)
 }
 
+/// C18, beyond what a scheduler search can reach (busy windows with more than a thousand jobs):
+/// the bound of a single task on an otherwise idle processor is attained iff its arrival curve
+/// is; so for every auto-extrapolating curve of the box the curve value at far windows is compared
+/// with the periodic extension of the maximum over all admissible sequences (max(x + P) =
+/// max(x) + K from some point on; (P, K) detected and validated on the explored range).
+fn far_tightness(ctx: &mut Ctx) -> Value {
+    use response_time_analysis::arrival::ArrivalBound;
+    let (maxlen, hi) = if ctx.quick() { (3, 5) } else { (4, 7) };
+    let h = 150usize;
+    let mut curves = 0u64;
+    let mut evals = 0u64;
+    let mut skipped = 0u64;
+    for pf in crate::spec::nondecreasing_prefixes(maxlen, hi) {
+        if !crate::spec::is_superadditive(&pf) {
+            continue;
+        }
+        let (m, ..) = crate::automata::Aut::Dmin { d: pf.iter().map(|x| *x as i16).collect() }.max_events(h);
+        // smallest period of the tail
+        let found = (1..=h / 3).find_map(|p| {
+            let k = m[h / 3 + p] - m[h / 3];
+            if (h / 3..=h - p).all(|x| m[x + p] == m[x] + k) { Some((p as u64, k)) } else { None }
+        });
+        let (p, k) = match found {
+            Some(x) if x.1 > 0 => x,
+            _ => {
+                skipped += 1;
+                continue;
+            }
+        };
+        curves += 1;
+        let lo = (h / 3) as u64;
+        for jobs in [1100u64, 1600, 2700] {
+            // a window that holds about `jobs` activations
+            let far = lo + (jobs / k + 1) * p + (jobs % 7);
+            let base = lo + (far - lo) % p;
+            let want = m[base as usize] + (far - base) / p * k;
+            evals += 1;
+            let pf2 = pf.clone();
+            let got = crate::util::with_timeout(30.0, move || {
+                response_time_analysis::arrival::ExtrapolatingCurve::new(ArrSpec::curve(&pf2)).number_arrivals(crate::spec::d(far)) as u64
+            });
+            match got {
+                Ok(g) if g == want => {}
+                Ok(g) => ctx.violation(
+                    &format!("arrival::ExtrapolatingCurve::number_arrivals#{}+far-window", if g > want { "not-attained" } else { "undercounts" }),
+                    &format!("ExtrapolatingCurve over {:?}: number_arrivals({far}) = {g}, the maximum over all sequences that respect the prefix is {want} (periodic extension: +{k} per {p} ticks)", pf),
+                    "extcurve-far",
+                    json!({"dmin": pf, "delta": far, "want": want}),
+                ),
+                Err(e) => ctx.violation("arrival::ExtrapolatingCurve::number_arrivals#fails+far-window", &format!("ExtrapolatingCurve over {:?}: number_arrivals({far}): {:?}", pf, e), "extcurve-far", json!({"dmin": pf, "delta": far, "want": want})),
+            }
+        }
+    }
+    json!({"rule": "every super-additive delta-min prefix of the box as an ExtrapolatingCurve: number_arrivals at three far windows (about 1100, 1600, 2700 activations) == periodic extension of the Dmin automaton's maximum", "curves": curves, "evaluations": evals, "curves_without_detected_period": skipped})
+}
+
+pub fn replay_far(case: &Value) -> bool {
+    use response_time_analysis::arrival::ArrivalBound;
+    let pf: Vec<u64> = serde_json::from_value(case["dmin"].clone()).unwrap();
+    let far = case["delta"].as_u64().unwrap();
+    let want = case["want"].as_u64().unwrap();
+    let got = crate::util::with_timeout(60.0, move || response_time_analysis::arrival::ExtrapolatingCurve::new(ArrSpec::curve(&pf)).number_arrivals(crate::spec::d(far)) as u64);
+    println!("replay: library {:?}, periodic extension of the model maximum {want}", got);
+    got != Ok(want)
+}
+
 /// `replay`: recompute the bound from the current tree, validate the stored trace from first
 /// principles, and say whether the stored job still exceeds the bound.  No explorer involved.
 pub fn replay(case: &Value) -> bool {
@@ -814,7 +925,7 @@ pub fn replay(case: &Value) -> bool {
             let ana: Ana = serde_json::from_value(case["ana"].clone()).unwrap();
             let ts: Vec<TP> = serde_json::from_value(case["params"].clone()).unwrap();
             let strict = case["strict_periodic"].as_bool().unwrap_or(case.get("untraced").is_none());
-            let bx = Box_ { name: "replay".into(), ana, ntasks: ts.len(), per_task: vec![], strict_periodic: strict };
+            let bx = Box_ { name: "replay".into(), ana, ntasks: ts.len(), per_task: vec![], strict_periodic: strict, cap: 2_000_000 };
             let ctx = Ctx::new("C18", crate::util::Tier::Quick);
             let mut acc = Acc::default();
             let mut found = vec![];
